@@ -99,6 +99,31 @@ def elem_fns(run, F):
             run.ob('SEQ.elemfn', fn, 'percentage-change closure #%d' % n, ok, loc(e),
                    'non-null leaf: %s' % [(sorted(c), l) for c, l in nonnull])
     run.floor('SEQ.elemfn', 'vpct_change pair closures', n, 2)
+    # the zero-lag arms (neither `0 < n` nor `n < 0`): the element paired with itself.
+    # pct_change: null on a null or zero base, else 0; diff: null stays null, else zero
+    nz = 0
+    for name in ('MapValidVec::vpct_change', 'MapValidVec::vdiff'):
+        fn = F.one(name)
+        for e, t in closure_tables(fn):
+            if len(e['params']) != 1 or e['params'][0].get('k') != 'Binding':
+                continue
+            g = dtree.guards_at(fn.hir, e, fn_env(fn))
+            gc = set(g[0]) if g else set()
+            if '(0 < n)' in gc or '(n < 0)' in gc or not any('unsigned_abs' in c for c in gc):
+                continue
+            nz += 1
+            if name.endswith('vpct_change'):
+                want = T((['!VALID(a0)'], 'NULL', []), (['(0. != a0)', 'VALID(a0)'], '0.', []),
+                         (['(0. == a0)', 'VALID(a0)'], 'NULL', []))
+                ok = t == want
+            else:
+                rows = [(frozenset(cs), leaf) for cs, leaf, ef in t]
+                ok = len(rows) == 2 and \
+                    any(cs == frozenset({'!VALID(a0)'}) and leaf in ('a0', 'NULL') for cs, leaf in rows) and \
+                    any(cs == frozenset({'VALID(a0)'}) and leaf in ('Zero::zero()', '0', '0.') for cs, leaf in rows)
+            run.ob('SEQ.elemfn', fn, 'zero-lag closure', ok, loc(e),
+                   'element paired with itself: %s' % dtree.show(t))
+    run.floor('SEQ.elemfn', 'zero-lag closures (vpct_change, vdiff)', nz, 2)
 
 
 def maps(run, F):
